@@ -14,13 +14,14 @@ use serde::{Deserialize, Serialize};
 use crate::checks::check_toplevel_items_in_env;
 use crate::commands::{
     print_available_commands, run_command, Command, CommandError, CommandParseError, EvalAction,
+    NOTHING_TO_SKIP,
 };
 use crate::diagnostics::{format_diagnostic, format_exception_with_stack, Diagnostic, Severity};
 use crate::env::Env;
 use crate::eval::{
     eval, eval_tests_until_error, eval_toplevel_exprs_then_stop, eval_up_to,
-    load_toplevel_items_with_stubs, push_test_stackframe, EvalError, EvalUpToErr, ExceptionInfo,
-    ExpressionState, Session, StdoutJsonFormat, StdoutStderrMode,
+    load_toplevel_items_with_stubs, push_test_stackframe, skip_current_expr, EvalError,
+    EvalUpToErr, ExceptionInfo, ExpressionState, Session, StdoutJsonFormat, StdoutStderrMode,
 };
 use crate::namespaces::NamespaceInfo;
 use crate::parser::ast::IdGenerator;
@@ -621,14 +622,18 @@ fn handle_run_request(
                     eval_to_response(env, session)
                 }
                 Err(CommandError::Action(EvalAction::Skip)) => {
-                    let stack_frame = env.stack.0.last_mut().unwrap();
-
-                    stack_frame
-                        .exprs_to_eval
-                        .pop()
-                        .expect("Tried to skip an expression, but none in this frame.");
-
-                    eval_to_response(env, session)
+                    if skip_current_expr(env) {
+                        eval_to_response(env, session)
+                    } else {
+                        Response {
+                            kind: ResponseKind::RunCommand {
+                                message: NOTHING_TO_SKIP.to_owned(),
+                                stack_frame_name: Some(env.top_frame_name()),
+                            },
+                            position: None,
+                            id,
+                        }
+                    }
                 }
             }
         }
